@@ -18,7 +18,8 @@ def hexf(x):
 
 # ------------------------------------------------------------------ cases
 # a case: {"minag", "maxunc", "steer", "ops": [op]}   op = ("A",id) ("O",id) ("M"|"m",id,serial,time,upd,leap,off,var,delay)
-#                                                         ("U"|"u",id,b) ("D"|"d",id) ("R",)
+#                                                         ("U"|"u",id,b) ("D"|"d",id) ("R",) ("T",)
+# steer: 0 no steering, 1 default steering configuration, 2 default thresholds but never step (slews: the timer path)
 
 def line_of(case):
     t = [str(case["minag"]), hexf(case["maxunc"]), str(case["steer"])]
@@ -33,7 +34,8 @@ def line_of(case):
 
 def parse_out(case, out):
     """-> (maxkey, [keys per M/m op], [drain observations]) or None.
-    observation = {"calls": [...], "used": [...], "map": [(id, usable, serial, time)], "broadcasts": n}"""
+    observation = {"calls": [...], "used": [...], "map": [(id, usable, serial, time)], "broadcasts": n,
+                   "slew": 0|1, "arms": n, "steps": [(kind, consensus, next, [calls])]}"""
     try:
         if not out or out[0] == "PANIC" or "STUCK" in out:
             return None
@@ -57,8 +59,15 @@ def parse_out(case, out):
                     b = i + 1 + 4 * q
                     m.append((int(out[b]), int(out[b + 1]), int(out[b + 2]), int(out[b + 3])))
                 i += 1 + 4 * j
-                obs.append({"calls": calls, "used": used, "map": m, "broadcasts": int(out[i])})
-                i += 1
+                o = {"calls": calls, "used": used, "map": m, "broadcasts": int(out[i]),
+                     "slew": int(out[i + 1]), "arms": int(out[i + 2]), "steps": []}
+                ns = int(out[i + 3])
+                i += 4
+                for _q in range(ns):
+                    nc = int(out[i + 3])
+                    o["steps"].append((int(out[i]), int(out[i + 1]), int(out[i + 2]), [int(x) for x in out[i + 4:i + 4 + nc]]))
+                    i += 4 + nc
+                obs.append(o)
             else:
                 return None
         return mk, keys, obs
@@ -73,12 +82,14 @@ def before(t, s):
     return d < 0
 
 
-def monitor(case, out):
+def monitor(case, out, map_check=True):
     """the property on one run, tracked here independently of the Coq model: the controller map after every drain is
     what each source's own operations say (registered = added and not dropped; usable = last report; snapshot = last
     measurement sent while registered, so per-source order is kept and data for removed/unknown ids is ignored), clock
-    calls happen only when a measurement of a registered source was handled, and the sources reported as used were
-    registered, last reported usable and had a snapshot when that measurement was handled."""
+    calls happen only when a measurement of a registered source was handled on a consensus (used_sources reported), or
+    -- exactly one set_frequency -- when the wrapper's timer expires after such a consensus update armed it
+    (next_update = Some) and it has not fired since; the sources reported as used were registered, last reported
+    usable and had a snapshot when that measurement was handled."""
     p = parse_out(case, out)
     if p is None:
         return ("harness failed: %s" % " ".join(out[:6]), {"case": case})
@@ -87,6 +98,7 @@ def monitor(case, out):
     k = 0
     eligible_sets = []
     touched = False
+    armed = False     # a consensus update returned next_update = Some and no timer expiry has been seen since
     for op in case["ops"]:
         c = op[0]
         if c in "AO":
@@ -108,11 +120,31 @@ def monitor(case, out):
             k += 1
             got = {(i, u, s) for (i, u, s, _t) in o["map"]}
             want = {(i, u, s) for i, (s, u) in reg.items()}
-            if got != want:
+            if map_check and got != want:
                 return ("after drain %d the controller holds %s (id, usable, serial) but the sources' own operations give %s"
                         % (k, sorted(got), sorted(want)), {"case": case, "drain": k})
-            if o["calls"] and not touched:
-                return ("clock calls %s in drain %d without any measurement of a registered source" % (o["calls"], k),
+            if [x for st in o["steps"] for x in st[3]] != o["calls"]:
+                return ("harness failed: the clock log of drain %d is not the concatenation of the per-call records" % k,
+                        {"case": case, "drain": k})
+            mcalls = []
+            for (kind, consensus, nxt, calls) in o["steps"]:
+                if kind == 0:
+                    mcalls += calls
+                    if calls and not consensus:
+                        return ("drain %d: clock calls %s while handling a source message without a consensus "
+                                "(no used_sources reported)" % (k, calls), {"case": case, "drain": k})
+                    if consensus and nxt:
+                        armed = True
+                else:
+                    if calls and not armed:
+                        return ("drain %d: the timer path (time_update) made clock calls %s although no consensus update "
+                                "had started a slew since the last timer expiry" % (k, calls), {"case": case, "drain": k})
+                    if calls and calls != [5]:
+                        return ("drain %d: the timer path (time_update) made clock calls %s, more than the one "
+                                "set_frequency that ends a slew" % (k, calls), {"case": case, "drain": k})
+                    armed = False
+            if mcalls and not touched:
+                return ("clock calls %s in drain %d without any measurement of a registered source" % (mcalls, k),
                         {"case": case, "drain": k})
             if 2 in o["calls"]:
                 if not any(set(o["used"]) <= e for e in eligible_sets):
@@ -120,14 +152,14 @@ def monitor(case, out):
                             "(eligible sets %s)" % (k, o["used"], [sorted(e) for e in eligible_sets]), {"case": case, "drain": k})
                 if not o["used"]:
                     return ("drain %d: clock updated with an empty set of used sources" % k, {"case": case, "drain": k})
-            if (4 in o["calls"] or 5 in o["calls"]) and 2 not in o["calls"]:
-                return ("drain %d: clock steered (%s) without a consensus update" % (k, o["calls"]), {"case": case, "drain": k})
+            if (4 in mcalls or 5 in mcalls) and 2 not in mcalls:
+                return ("drain %d: clock steered (%s) without a consensus update" % (k, mcalls), {"case": case, "drain": k})
             eligible_sets = []
             touched = False
     return None
 
 
-def gen_case(rng, tier, steer=0, illformed=False, era=False):
+def gen_case(rng, tier, steer=0, illformed=False, era=False, timer=False):
     nsrc = rng.randint(1, 5)
     ids = rng.sample(range(1, 40), nsrc)
     oneway = {i: rng.random() < 0.15 for i in ids}
@@ -195,6 +227,19 @@ def gen_case(rng, tier, steer=0, illformed=False, era=False):
                 ops.append(("u", j, 1))
             else:
                 ops.append(("d", j))
+    if timer:
+        # timer expiries (virtual time passes) at random points, sometimes twice in a row
+        full = []
+        for o in ops:
+            full.append(o)
+            r = rng.random()
+            if r < 0.25:
+                full.append(("T",))
+                if rng.random() < 0.2:
+                    full.append(("T",))
+        if rng.random() < 0.5:
+            full.append(("T",))
+        ops = full
     # observation points
     if rng.random() < 0.7:
         full = []
@@ -238,7 +283,116 @@ def fixed_cases():
         for minag in (1, 2):
             out.append({"minag": minag, "maxunc": 1.0, "steer": 0, "ops": ops})
         out.append({"minag": 1, "maxunc": 1.0, "steer": 1, "ops": ops})
+    return out + timer_fixed_cases()
+
+
+def timer_fixed_cases():
+    """the wrapper's timer path: a consensus starts a slew (steer 2: never step) and arms the sleeper; time passes"""
+    def M(i, s, off=0.0, leap=0, tm=T0):
+        return ("M", i, s, tm, tm, leap, off + s / 4096.0, 1.0 / 64, 0.125 + s / 8192.0)
+    R, T = ("R",), ("T",)
+    cs = []
+    # time passes with nothing armed; a slew starts; it ends; a second expiry does nothing; the next consensus slews again
+    cs.append([("A", 1), ("U", 1, 1), T, R, M(1, 1, off=0.5), R, T, R, T, R, M(1, 2, off=0.5), R, T, R])
+    # measurements during the slew (frequency corrections, no new timer), then the expiry
+    cs.append([("A", 1), ("A", 2), ("U", 1, 1), ("U", 2, 1), M(1, 1, off=0.5), R, M(2, 2, off=0.5), R, M(1, 3, off=0.5), R, T, R,
+               M(2, 4, off=0.5), R])
+    # the source that started the slew is dropped / made unusable before the timer fires: the slew still ends
+    cs.append([("A", 1), ("U", 1, 1), M(1, 1, off=0.5), R, ("D", 1), R, T, R, T, R])
+    cs.append([("A", 1), ("U", 1, 1), M(1, 1, off=0.5), R, ("U", 1, 0), R, M(1, 2, off=0.5), R, T, R])
+    # no consensus at all (unusable / disagreeing sources): time passing must not touch the clock
+    cs.append([("A", 1), M(1, 1, off=0.5), T, R, ("A", 2), ("U", 1, 1), ("U", 2, 1), M(1, 2, off=0.5), T, R, M(2, 3, off=-5.0), T, R])
+    # everything queued, then time passes: the loop handles the messages first, then the expiry
+    cs.append([("A", 1), ("U", 1, 1), M(1, 1, off=0.5), T, M(1, 2, off=0.5), T, R])
+    # small offset: no steering wish, nothing armed
+    cs.append([("A", 1), ("U", 1, 1), M(1, 1, off=0.0), R, T, R])
+    out = []
+    for ops in cs:
+        for steer in (2, 0, 1):
+            out.append({"minag": 1, "maxunc": 1.0, "steer": steer, "ops": ops})
     return out
+
+
+def wish_tape(obs):
+    """the outcome of the steering decision of every consensus step, read off the implementation's run:
+    0 none, 1 frequency correction, 2 slew started, 3 step"""
+    tape = []
+    for o in obs:
+        for (kind, consensus, nxt, calls) in o["steps"]:
+            if kind == 0 and consensus:
+                tape.append(3 if 4 in calls else (2 if nxt else (1 if 5 in calls else 0)))
+    return tape
+
+
+def make_coq_case(stats):
+    def coq_case(case, out):
+        p = parse_out(case, out)
+        if p is None:
+            return None
+        mk, keys, obs = p
+        for op in case["ops"]:
+            stats["ops"][op[0]] = stats["ops"].get(op[0], 0) + 1
+        stats["drains"] += len(obs)
+        stats["clock_updates"] += sum(1 for o in obs if 2 in o["calls"])
+        stats["steering_calls"] += sum(o["calls"].count(4) + o["calls"].count(5) for o in obs)
+        stats["broadcasts"] += sum(o["broadcasts"] for o in obs)
+        steps = [st for o in obs for st in o["steps"]]
+        stats["timer_expiries_armed"] += sum(1 for st in steps if st[0] == 1)
+        stats["slews_started"] += sum(1 for st in steps if st[0] == 0 and st[2])
+        tape = wish_tape(obs)
+        for w in tape:
+            stats["steering_decisions"][w] = stats["steering_decisions"].get(w, 0) + 1
+        if case["steer"] == 1 or 3 in tape:
+            # a step rewrites offsets and filter times of the stored snapshots (not modelled): monitor only
+            stats["steer_config"] += 1
+            return None
+        flat = [k for ks in keys for k in ks[1:]]
+        if len(set(flat)) != len(flat):
+            stats["skipped_interval_ties"] += 1
+            return None
+        stats["model_compared"] += 1
+        if case["steer"] == 2:
+            stats["model_compared_slew_config"] += 1
+        items = []
+        ki = 0
+        oneway = {}
+        for op in case["ops"]:
+            k = op[0]
+            if k in "AO":
+                oneway[op[1]] = (k == "O")
+                items.append("IEv (%s, None)" % vplib.zlit(op[1]))
+            elif k in "Mm":
+                r, lo, hi = keys[ki]
+                ki += 1
+                cand = "mkCand %s %s %s %s %s %s" % (vplib.zlit(op[1]), vplib.blit(oneway.get(op[1], False)),
+                                                     vplib.blit(op[5] != 4), vplib.zlit(r), vplib.zlit(lo), vplib.zlit(hi))
+                items.append("IEv (%s, Some (Measure (mkSnap %s %s %s %s (%s))))" % (
+                    vplib.zlit(op[1]), vplib.zlit(op[2]), vplib.zlit(op[3]), vplib.zlit(op[4]), vplib.zlit(op[5]), cand))
+            elif k in "Uu":
+                items.append("IEv (%s, Some (SetUsable %s))" % (vplib.zlit(op[1]), vplib.blit(op[2] == 1)))
+            elif k in "Dd":
+                items.append("IEv (%s, Some DropSrc)" % vplib.zlit(op[1]))
+            elif k == "T":
+                items.append("ITime")
+            else:
+                items.append("IDrain")
+        tape_t = vplib.coq_list([vplib.zlit(x) for x in tape]) if tape else "(@nil Z)"
+        inp = "(%s, %s, %s, %s)" % (vplib.zlit(case["minag"]), vplib.zlit(mk), tape_t, vplib.coq_list(items))
+        exp = []
+        for o in obs:
+            exp += [-1, len(o["calls"])] + o["calls"] + [len(o["used"])] + o["used"] + [len(o["map"])]
+            for e in o["map"]:
+                exp += list(e)
+            exp += [o["slew"], o["arms"]]
+        return inp, vplib.coq_list([vplib.zlit(x) for x in exp])
+    return coq_case
+
+
+def new_stats():
+    return {"steer_config": 0, "model_compared": 0, "model_compared_slew_config": 0,
+            "skipped_interval_ties": 0, "clock_updates": 0, "drains": 0,
+            "ops": {}, "steering_calls": 0, "broadcasts": 0, "timer_expiries_armed": 0, "slews_started": 0,
+            "steering_decisions": {}}
 
 
 def main():
@@ -265,18 +419,26 @@ def main():
     for _ in range(n // 10):
         cases.append(gen_case(rng, c.tier, era=True, illformed=rng.random() < 0.3))
     for _ in range(n // 5):
-        cases.append(gen_case(rng, c.tier, steer=1, illformed=rng.random() < 0.3))
+        cases.append(gen_case(rng, c.tier, steer=1, illformed=rng.random() < 0.3, timer=rng.random() < 0.5))
+    for _ in range(n // 3):
+        cases.append(gen_case(rng, c.tier, steer=2, illformed=rng.random() < 0.2, timer=True))
+    for _ in range(n // 10):
+        cases.append(gen_case(rng, c.tier, steer=0, timer=True))
 
     c.cov["rule"] = ("whole schedules through the real message loop: random interleavings (order-preserving merges) of 1-5 source "
                      "tasks (measure / set usable / drop, two-way and one-way sources, add_source at a random earlier point), "
                      "observed after every operation or in batches; ill-formed schedules with messages written into the channel "
                      "for dropped or unknown ids; timestamps around the update time (stale and future-dated snapshots, era wrap); "
                      "hand-made drop-then-late-message and usable-flip schedules. Compared per drain: clock calls, used_sources, "
-                     "the controller map (id, usable, snapshot serial, filter time). Schedules with the default steering config "
-                     "are judged by the monitor only. Non-trivial: at least two clock updates or a drop with later traffic.")
-    stats = {"corpus": ncorpus, "fixed": len(fx), "total": len(cases), "steer_config": 0, "model_compared": 0,
-             "skipped_interval_ties": 0, "clock_updates": 0, "drains": 0,
-             "ops": {}, "steering_calls": 0, "broadcasts": 0}
+                     "the controller map (id, usable, snapshot serial, filter time), desired_freq != 0, number of updates that "
+                     "returned next_update. Timer path: schedules with T = virtual time passes beyond any armed deadline of the "
+                     "wrapper's sleeper (the real `run` then calls the real time_update iff its sleeper is enabled), under a "
+                     "never-step steering configuration so that offset corrections are slews; the outcome of each steering "
+                     "decision (float comparisons) is read off the run and given to the model as its oracle tape. Schedules "
+                     "with the default steering config (steps rewrite the stored snapshots) are judged by the monitor only. "
+                     "Non-trivial: at least two clock updates or a drop with later traffic.")
+    stats = new_stats()
+    stats.update({"corpus": ncorpus, "fixed": len(fx), "total": len(cases)})
 
     def nontrivial(case, out):
         p = parse_out(case, out)
@@ -285,53 +447,7 @@ def main():
         upd = sum(1 for o in p[2] if 2 in o["calls"])
         return upd >= 2 or any(op[0] in "Dd" for op in case["ops"][:-2])
 
-    def coq_case(case, out):
-        p = parse_out(case, out)
-        if p is None:
-            return None
-        mk, keys, obs = p
-        for op in case["ops"]:
-            stats["ops"][op[0]] = stats["ops"].get(op[0], 0) + 1
-        stats["drains"] += len(obs)
-        stats["clock_updates"] += sum(1 for o in obs if 2 in o["calls"])
-        stats["steering_calls"] += sum(o["calls"].count(4) + o["calls"].count(5) for o in obs)
-        stats["broadcasts"] += sum(o["broadcasts"] for o in obs)
-        if case["steer"]:
-            stats["steer_config"] += 1
-            return None
-        flat = [k for ks in keys for k in ks[1:]]
-        if len(set(flat)) != len(flat):
-            stats["skipped_interval_ties"] += 1
-            return None
-        stats["model_compared"] += 1
-        items = []
-        ki = 0
-        oneway = {}
-        for op in case["ops"]:
-            k = op[0]
-            if k in "AO":
-                oneway[op[1]] = (k == "O")
-                items.append("IEv (%s, None)" % vplib.zlit(op[1]))
-            elif k in "Mm":
-                r, lo, hi = keys[ki]
-                ki += 1
-                cand = "mkCand %s %s %s %s %s %s" % (vplib.zlit(op[1]), vplib.blit(oneway.get(op[1], False)),
-                                                     vplib.blit(op[5] != 4), vplib.zlit(r), vplib.zlit(lo), vplib.zlit(hi))
-                items.append("IEv (%s, Some (Measure (mkSnap %s %s %s %s (%s))))" % (
-                    vplib.zlit(op[1]), vplib.zlit(op[2]), vplib.zlit(op[3]), vplib.zlit(op[4]), vplib.zlit(op[5]), cand))
-            elif k in "Uu":
-                items.append("IEv (%s, Some (SetUsable %s))" % (vplib.zlit(op[1]), vplib.blit(op[2] == 1)))
-            elif k in "Dd":
-                items.append("IEv (%s, Some DropSrc)" % vplib.zlit(op[1]))
-            else:
-                items.append("IDrain")
-        inp = "(%s, %s, %s)" % (vplib.zlit(case["minag"]), vplib.zlit(mk), vplib.coq_list(items))
-        exp = []
-        for o in obs:
-            exp += [-1, len(o["calls"])] + o["calls"] + [len(o["used"])] + o["used"] + [len(o["map"])]
-            for e in o["map"]:
-                exp += list(e)
-        return inp, vplib.coq_list([vplib.zlit(x) for x in exp])
+    coq_case = make_coq_case(stats)
 
     vplib.correspondence(
         c, "ntp-proto", cases,
@@ -365,14 +481,20 @@ MANIFEST = {
             "(C37_candidates), and the reported used_sources are among them (C37_used_sources_are_candidates); a message for an "
             "unregistered id, in particular anything after the source's removal, changes nothing and emits nothing "
             "(C37_ignored_when_unregistered, C37_after_removal); in every interleaving the snapshots stored for a source are its "
-            "script's measurements in production order (C37_per_source_order). Tie: the real TimeSyncControllerWrapper::run, "
+            "script's measurements in production order (C37_per_source_order); timer expiries of the wrapper's loop "
+            "(time_update) never change the source map, so all of this holds with timer expiries anywhere in the schedule "
+            "(C37_timer_leaves_sources_alone, C37_state_is_per_source_with_timer, C37_candidates_with_timer). Tie: the real "
+            "TimeSyncControllerWrapper::run (incl. its sleeper, virtual time passing), "
             "real source wrappers (incl. Drop) and real KalmanClockController with a recording clock on a current-thread tokio "
             "runtime, random interleavings incl. ill-formed ones, compared per drain: clock calls, used_sources, controller map.",
     "note": "Trusted: Coq kernel+vm_compute; hand-written model MsgLoop.v (snapshot float state abstracted to identity, filter "
             "time and interval keys; selection via Model/Select.v, vote via Model/Combine.v in the correspondence instance); tokio "
             "mpsc FIFO + controller mutex (a schedule is the order of sends); ClockIds never reused; the per-source Kalman filter "
-            "is scripted in the harness; thread interleavings inside one handler and the timer path (time_update) are not "
-            "modelled; schedules with the default steering thresholds are judged by the monitor only (steering rewrites the "
-            "float state). Print Assumptions: closed under the global context.",
+            "is scripted in the harness; thread interleavings inside one handler are not modelled; the timer path "
+            "(time_update) is modelled as an event of the loop (its only effects in the model: one set_frequency, desired_freq "
+            "= 0, sleeper disabled); the float comparisons of the steering decision are oracles (read off the run in the "
+            "correspondence); the rewriting of the stored snapshots' float state / filter time by steering is not modelled, so "
+            "schedules with the default steering thresholds (clock steps) are judged by the monitor only. Print Assumptions: "
+            "closed under the global context.",
     "design_ref": "DESIGN.md 3 C37",
 }
